@@ -483,7 +483,8 @@ pub fn tpl_program(r: &mut Rng) -> String {
     let (c1, c2, c3, c4) = (cs[0], cs[1], cs[2], cs[3]);
     let n = r.range(2, 9);
     // shapes that took outside eyes to discover get extra weight
-    let shape = match r.below(28) {
+    let shape = match r.below(31) {
+        28..=30 => return wide_program(r),
         26 | 27 => 103,
         24 | 25 => 102,
         22 | 23 => 101,
@@ -727,6 +728,83 @@ pub fn tpl_program(r: &mut Rng) -> String {
 }
 
 
+/// Tokens that cannot be broken (string literals, long names) of several widths next to lists
+/// that can (tuples, pipelines): whatever lays source text out — `pl_to_prql`, a declaration
+/// printed in a message — has to widen its line for the former and wrap the latter, and must
+/// do so in the same way whatever it laid out before (seeded changes S24, S58).
+pub fn wide_program(r: &mut Rng) -> String {
+    fn width(r: &mut Rng) -> usize {
+        match r.below(8) {
+            0 => r.range(30, 45),
+            1 => r.range(52, 58),
+            2 => r.range(60, 75),
+            3 => r.range(100, 115),
+            4 => r.range(160, 175),
+            5 => r.range(250, 262),
+            6 => r.range(370, 400),
+            _ => r.range(560, 1300),
+        }
+    }
+    const LONG_COLS: &[&str] = &[
+        "first_name", "last_name", "department", "salary", "hire_date", "title", "manager_id", "country", "city",
+        "postal_code", "phone", "email", "birth_date", "updated_at",
+    ];
+    let t = r.pick(TABLES).to_string();
+    let mut out = String::new();
+    for j in 0..r.below(3) {
+        let w = width(r);
+        match r.below(3) {
+            0 => out.push_str(&format!("let s{j} = \"{}\"\n", "q".repeat(w))),
+            1 => out.push_str(&format!("let f{j} = x -> x == \"{}\"\n", "w".repeat(w))),
+            _ => out.push_str(&format!("let t{j} = (from {t} | filter note != \"{}\" | select {{id, note, kind, amount}})\n", "e".repeat(w))),
+        }
+    }
+    let mut cols: Vec<&str> = LONG_COLS.to_vec();
+    r.shuffle(&mut cols);
+    let k = r.range(5, 13);
+    let tuple = cols[..k].join(", ");
+    let w = width(r);
+    let lit = "a".repeat(w);
+    match r.below(4) {
+        0 => out.push_str(&format!("from {t}\nfilter name == \"{lit}\"\nselect {{{tuple}}}\n")),
+        1 => out.push_str(&format!("from {t} | filter name == \"{lit}\" | select {{{tuple}}} | sort {{{}}} | take {}\n", cols[0], r.range(2, 40))),
+        2 => out.push_str(&format!("from {t}\nderive {{tag = \"{lit}\", {}}}\nselect {{tag, {tuple}}}\n", cols[..3].iter().map(|c| format!("{c}_2 = {c}")).collect::<Vec<_>>().join(", "))),
+        _ => out.push_str(&format!("from {t}\nselect {{{tuple}}}\nfilter {} != \"{lit}\" && {} != \"{}\"\n", cols[0], cols[1], "b".repeat(width(r)))),
+    }
+    out
+}
+
+/// A panic that reaches the boundary of an `extern "C"` function aborts the process (it cannot
+/// unwind into a C host), so a panic *fault* injected into a call through the C binding would
+/// kill the simulated process by construction; such calls get none. (Programs that panic for
+/// real abort their reference context too and are dropped from histories like any other
+/// program whose reference context dies.)
+fn no_panic_fault_across_ffi(p: &mut Plan) {
+    for c in p.threads.iter_mut().flatten().chain(p.sentinel.iter_mut()) {
+        if matches!(c.op, Op::CApi { .. }) {
+            c.panic_at = None;
+        }
+    }
+}
+
+/// Does the text hold a token of more than fifty columns that no formatter can break?
+pub fn is_wide(src: &str) -> bool {
+    let mut run = 0usize;
+    let mut last = '\0';
+    for ch in src.chars() {
+        if ch == last && ch.is_ascii_alphabetic() {
+            run += 1;
+            if run >= 28 {
+                return true;
+            }
+        } else {
+            run = 0;
+            last = ch;
+        }
+    }
+    false
+}
+
 /// Programs that are *wrong* in ways that make the compiler enumerate candidates,
 /// arguments or columns in its message — error text is a claimed output, and messages
 /// assembled from hash containers were four of the findings.
@@ -802,7 +880,27 @@ pub fn err_program(r: &mut Rng) -> String {
             format!("from {t} | select {{{c1}_1 = {c1}, {c1}_2 = {c2}, {c3}}} | filter {c1}_{k} > {n} | sort {{{c3}x}}\n")
         }
         0 => format!("from {t} | select {{{c1}, {c2}, {c3}}} | derive {{{c4} = {c1}}} | filter zz_{n} > 1\n"),
-        1 => format!("from a = {t} | join b = {u} (=={c1}) | join c = {t} (=={c1}) | select {{{c1}, {c2}}}\n"),
+        1 if r.below(2) == 0 => format!("from a = {t} | join b = {u} (=={c1}) | join c = {t} (=={c1}) | select {{{c1}, {c2}}}\n"),
+        // a bare name that two to eight relations could supply (the message lists candidates)
+        1 => {
+            let k = r.range(2, 8);
+            let names = ["a", "b", "c", "d", "e", "f2", "g", "h"];
+            let mut out = format!("from {} = {t}\n", names[0]);
+            for j in 1..k {
+                let tab = if r.below(2) == 0 { t.as_str() } else { u.as_str() };
+                if r.below(2) == 0 {
+                    out.push_str(&format!("join {} = {tab} ({}.{c1} == {}.{c1})\n", names[j], names[0], names[j]));
+                } else {
+                    out.push_str(&format!("join side:left {} = {tab} ({}.id == {}.id)\n", names[j], names[j - 1], names[j]));
+                }
+            }
+            match r.below(3) {
+                0 => out.push_str(&format!("select {c2}\n")),
+                1 => out.push_str(&format!("filter {c2} > {n}\nselect {{a.{c1}, {c3}}}\n")),
+                _ => out.push_str(&format!("derive {{z = {c2} + {c3}}}\nsort z\n")),
+            }
+            out
+        }
         2 => format!("from {t} | sort {c1} foo:{n} bar:2 baz:3\n"),
         3 => format!("from {t} | take {n} extra:1 more:2\n"),
         4 => format!("let f = func a:1 b:2 x -> x + a + b\nfrom {t} | derive y = (f q:1 r:2 s:3 {c1})\n"),
@@ -1300,6 +1398,10 @@ impl<'a> Gen<'a> {
     }
 
     pub fn op_for_src(&self, r: &mut Rng, src: String, dialect_sensitive: bool) -> Op {
+        if src.len() < 20_000 && is_wide(&src) && r.below(2) == 0 {
+            // layout is what such a program is about
+            return Op::Fmt { src };
+        }
         match r.below(19) {
             0..=8 => Op::Compile {
                 src,
@@ -1359,6 +1461,11 @@ impl<'a> Gen<'a> {
                 }
             }
             13..=15 => Op::Fmt { src },
+            16 if r.below(2) == 0 => Op::CApi {
+                staged: r.below(3) == 0,
+                src,
+                opts: pick_opts(r, dialect_sensitive),
+            },
             16..=17 => Op::Rq { src },
             _ => Op::Tokens { src },
         }
@@ -1370,6 +1477,10 @@ impl<'a> Gen<'a> {
     pub fn next_op(&self, r: &mut Rng, prev: Option<&Op>, dialect_sensitive: bool) -> Op {
         if let Some(p) = prev {
             if let Some(psrc) = p.src() {
+                if psrc.len() < 20_000 && is_wide(psrc) && r.below(2) == 0 {
+                    // one wide statement is followed by another of another width
+                    return Op::Fmt { src: wide_program(r) };
+                }
                 if r.below(6) == 0 {
                     // the very same source under another target / other options
                     let mut o = p.clone();
@@ -1438,7 +1549,14 @@ impl<'a> Gen<'a> {
 
     /// Stratum A: one operation under K+1 hash bases (and, for projects, K+1
     /// enumeration orders). Call 0 is the reference context itself.
+    /// Stratum A plan; one in eight runs in a freshly exec'd process (fault `address_space`).
     pub fn plan_a(&self, i: u64, k: usize) -> Plan {
+        let mut p = self.plan_a0(i, k);
+        p.fresh_exec = Rng::new(mix3(self.verif_seed, 0xA5_1A, i)).below(8) == 0;
+        p
+    }
+
+    fn plan_a0(&self, i: u64, k: usize) -> Plan {
         let s = mix3(self.verif_seed, 0xA, i);
         let mut r = Rng::new(s);
         let op = if r.below(6) == 0 {
@@ -1523,6 +1641,7 @@ impl<'a> Gen<'a> {
             atomic_focus: 0,
             spin_guard: 0,
             log_level: None,
+            fresh_exec: false,
         }
     }
 
@@ -1610,6 +1729,7 @@ impl<'a> Gen<'a> {
             atomic_focus: 0,
             spin_guard: 0,
             log_level: None,
+            fresh_exec: false,
         }
     }
 
@@ -1674,6 +1794,7 @@ impl<'a> Gen<'a> {
             atomic_focus: 0,
             spin_guard: 0,
             log_level: None,
+            fresh_exec: false,
         }
     }
 
@@ -1755,10 +1876,18 @@ impl<'a> Gen<'a> {
             atomic_focus: 0,
             spin_guard: 0,
             log_level: None,
+            fresh_exec: false,
         }
     }
 
     pub fn plan_b(&self, i: u64, panickers: &[String]) -> Plan {
+        let mut p = self.plan_b0(i, panickers);
+        no_panic_fault_across_ffi(&mut p);
+        p.fresh_exec = Rng::new(mix3(self.verif_seed, 0xA5_1B, i)).below(12) == 0;
+        p
+    }
+
+    fn plan_b0(&self, i: u64, panickers: &[String]) -> Plan {
         let s = mix3(self.verif_seed, 0xB, i);
         // one execution in forty is a long history (a PRNG stream of its own)
         if Rng::new(mix(s, 0x3a7a)).below(40) == 0 {
@@ -1883,12 +2012,20 @@ impl<'a> Gen<'a> {
             atomic_focus: 0,
             spin_guard: 0,
             log_level: plan_level,
+            fresh_exec: false,
         }
     }
 
     /// Stratum C: concurrent callers as shuttle tasks under the simulator's
     /// scheduler; dialect-sensitive programs, different options per caller.
     pub fn plan_c(&self, i: u64, panickers: &[String]) -> Plan {
+        let mut p = self.plan_c0(i, panickers);
+        no_panic_fault_across_ffi(&mut p);
+        p.fresh_exec = Rng::new(mix3(self.verif_seed, 0xA5_1C, i)).below(12) == 0;
+        p
+    }
+
+    fn plan_c0(&self, i: u64, panickers: &[String]) -> Plan {
         let s = mix3(self.verif_seed, 0xC, i);
         let mut r = Rng::new(s);
         let nthreads = *r.pick(&[2usize, 2, 3, 3, 4]);
@@ -2003,6 +2140,7 @@ impl<'a> Gen<'a> {
             atomic_focus: *r.pick(&[1u32, 2, 4, 8]),
             spin_guard: 0,
             log_level: None,
+            fresh_exec: false,
         };
         plan.spin_guard = *Rng::new(mix(s, 0x5919)).pick(&[0u32, 0, 0, 400_000]);
         plan.log_level = *Rng::new(mix(s, 0x106)).pick(&[None, None, None, None, Some(4u8), Some(3), Some(0)]);
